@@ -140,6 +140,9 @@ func (fr *frame) get(key ssa.Value) value {
 		return constValue(key)
 	case *ssa.Global:
 		if r, ok := fr.i.globals[key]; ok {
+			if key.Pkg != nil && !fr.i.allowInit[key.Pkg.Pkg.Path()] {
+				guardGlobal(fr.i, key)
+			}
 			return r
 		}
 	}
